@@ -32,6 +32,7 @@ import shutil
 import cfggen
 import mockca
 import vlib
+from ext import c06nb
 
 NS = 10 ** 9
 DAY = 86400
@@ -136,8 +137,11 @@ def build_files(items, root, helper):
             cfg["certificate"].append(dict({"name": it["name"], "endpoint": eps[ekey], "account": "acc", "key_type": "ecdsa_p256",
                                             "identifiers": [{"dns": it["dns"], "challenge": "http-01"}], "hooks": []},
                                            **level_settings(it["place"], "certificate")))
+            # when the validity begins: every class of py/ext/c06nb.py in turn (the judge is given notAfter only)
+            it["nb_class"], nb = c06nb.by_index(it["idx"])
+            it["not_before_offset"] = -3600 if nb is None else nb
             r = helper.call({"op": "selfsigned", "dns": [it["dns"]], "ips": [], "not_after_offset": it["life"],
-                             "not_before_offset": -3600, "type": "ecdsa-p256"})
+                             "not_before_offset": it["not_before_offset"], "type": "ecdsa-p256"})
             if "err" in r:
                 raise RuntimeError("vhelper selfsigned: %s" % r)
             base = os.path.join(certs_dir, it["name"] + "_ecdsa-p256")
@@ -190,6 +194,7 @@ def check_items(ctx, items, root, helper, tag="p:"):
         ctx.case({"place": place, "life": it["life"], "present": it["present"]}, nontrivial=it["present"] == "both")
         ctx.traces += 1
         ctx.count(tag + "family:" + it["family"])
+        c06nb.count(ctx, tag, it, ":family=" + it["family"])
         for w in ("delay", "rer"):
             pat = "".join("GEC"[i] if place[l][w] is not None else "-" for i, l in enumerate(LEVELS))
             ctx.count(tag + "%s-set-at:%s" % (KEY[w], pat))
@@ -229,7 +234,7 @@ def check_items(ctx, items, root, helper, tag="p:"):
 
 
 def strip(it):
-    return {k: it[k] for k in ("family", "place", "life", "present", "idx") if k in it}
+    return {k: it[k] for k in ("family", "place", "life", "present", "idx", "nb_class", "not_before_offset") if k in it}
 
 
 def extend(ctx, helper, root):
@@ -278,6 +283,10 @@ def loop_scenarios(ctx):
          "place": {"certificate": {"delay": DAY}, "endpoint": {"delay": 100 * DAY}}},
         {"kind": "installed-fresh", "watch_s": 6, "pair_secs": 90 * DAY, "valid_secs": 90 * DAY,
          "place": {"endpoint": {"delay": DAY, "rer": 60}, "global": {"delay": 100 * DAY, "rer": 80 * DAY}}, "neighbour": "other-account"},
+        # issued by a CA whose clock runs two hours ahead (not valid yet for the local clock), the endpoint's renew_delay
+        # (10 days) inside [global]'s (100 days): fresh, not requested again
+        {"kind": "issued-fresh", "watch_s": 6, "valid_secs": 90 * DAY, "valid_from_offset": 2 * H,
+         "place": {"endpoint": {"delay": 10 * DAY}, "global": {"delay": 100 * DAY}}},
     ]
     if not ctx.quick():
         for _ in range(6):
